@@ -214,13 +214,14 @@ Logical(s, e) ==
       [] e.k = "Decl" -> <<"Decl", <<>>, AttrPairs(Slice(s, e.lo, e.hi), 3)>>
       [] e.k = "Err" -> <<"Err", <<>>, <<>>>>
       [] OTHER -> <<e.k, Slice(s, e.lo, e.hi), <<>>>>
-RECURSIVE Coalesce(_)
-Coalesce(L) ==
+\* (empty Text is dropped FIRST: an empty text event writes nothing, so its neighbours become adjacent in the output)
+RECURSIVE Merge(_)
+Merge(L) ==
     IF L = <<>> THEN <<>>
-    ELSE IF Head(L)[1] = "Text" /\ Head(L)[2] = <<>> THEN Coalesce(Tail(L))
     ELSE IF Len(L) >= 2 /\ Head(L)[1] \in {"Text", "CData"} /\ L[2][1] = Head(L)[1]
-         THEN Coalesce(<<<<Head(L)[1], Head(L)[2] \o L[2][2], <<>>>>>> \o SubSeq(L, 3, Len(L)))
-    ELSE <<Head(L)>> \o Coalesce(Tail(L))
+         THEN Merge(<<<<Head(L)[1], Head(L)[2] \o L[2][2], <<>>>>>> \o SubSeq(L, 3, Len(L)))
+    ELSE <<Head(L)>> \o Merge(Tail(L))
+Coalesce(L) == Merge(SelectSeq(L, LAMBDA x : ~(x[1] = "Text" /\ x[2] = <<>>)))
 ReadBack(s) ==
     LET evs == RefEvents(s, NeutralCfg) IN
     Coalesce([i \in 1..(Len(evs) - 1) |-> Logical(s, evs[i])])     \* the final Eof is dropped
